@@ -7,7 +7,7 @@ from vgen import *
 
 BIN = 'c08'
 DRV = 'drv_c08'
-WIDTHS = [0, 1, 2, 3, 4, 5, 6, 7, 8, 9, 12, 15, 16, 17, 31, 32, 33, 56, 57, 60, 63, 64, 65, 72, 96, 100, 120, 121, 127,
+WIDTHS = [0, 1, 2, 3, 4, 5, 6, 7, 8, 9, 12, 15, 16, 17, 20, 24, 31, 32, 33, 56, 57, 60, 63, 64, 65, 72, 96, 100, 120, 121, 127,
           128, 129, 160, 192, 200, 250, 255, 256, 257, 320, 384, 440, 505, 512, 521, 1024, 4090, 4096]
 # BYTES % 8 == 0 and BITS % 64 != 0: the fast path meets a non-trivial top-limb mask
 FAST_MASKED = [b for b in WIDTHS if b > 0 and ((b + 7) // 8) % 8 == 0 and b % 64 != 0]
@@ -113,6 +113,14 @@ def exhaustive(tier):
                 for b in special:
                     for c in special:
                         yield '%s %d %02x%02x%02x' % (op, bits, a, b, c)
+    if tier != 'quick':
+        # 3-byte strings at width 17/20/24 (BYTES = 3): all (first, last) bytes x special middle bytes
+        for bits in (17, 20, 24):
+            for op in ('try_le', 'try_be'):
+                for a in range(256):
+                    for c in range(256):
+                        for b in special:
+                            yield '%s %d %02x%02x%02x' % (op, bits, a, b, c)
     # every value at tiny widths through every encoder
     for bits in [0, 1, 2, 3, 7, 8, 9, 12]:
         for v in range(1 << bits):
@@ -123,7 +131,7 @@ def exhaustive(tier):
 
 
 def _gen(rng, tier):
-    n = 30000 if tier == 'quick' else 1500000
+    n = 30000 if tier == 'quick' else 5000000
     yield from exhaustive(tier)
     # every width: the fixed boundary set (deterministic part)
     for bits in WIDTHS:
